@@ -22,7 +22,7 @@ def run (args : List String) : String :=
       | .fuel => ("#fuel", "-")
     let (m, mr) := show_ rm
     let (n, nr) := show_ rp
-    s!"M={m} MD={diagsStr dm} MR={mr} N={n} ND={diagsStr dp} NR={nr} W={sm.clear.worst}"
+    s!"M={m} MD={diagsStr dm} MR={mr} N={n} ND={diagsStr dp} NR={nr} W={sm.clear.worst} E={sm.evals.length}"
 
 /-- memo + counter only; `E` = number of evaluations of memoised parsers in this body -/
 def runMemo (args : List String) : String :=
